@@ -56,6 +56,7 @@ PROP = {
                 H("c04_add_edge_step_n3", "P", what="try_add_edge inductive step, 3 edges: always rejected"),
                 H("c04_new_solution_is_empty", "P", what="base case"),
                 H("c04_number_of_hops_no_underflow", "P", what="number_of_hops total under len>=1 && idx<len, all usize lengths"),
+                H("c04_sort_cmp_keys_pair_e1", "B", tier="experimental", bound="<= 1 edge per solution, pairs only", what="get_paths comparator: reflexive, antisymmetric, primary key cost, secondary key edge count (no transitivity) - round 3: CBMC grew to 36 GB in 4 min without reaching the solver, stopped; the cost is in the symbolic Vec of SolutionEdge + 32-byte id compare, not in the number of solutions", timeout=900),
                 H("c04_sort_cmp_total_preorder", "B", tier="experimental", bound="<= 3 edges", what="get_paths comparator is a total preorder (cost, then edge count) - timed out at 900 s", timeout=3600),
                 H("c04_meta_single_edge_l2", "B", tier="experimental", bound="1 edge, 2 entries", what="metadata truthfulness of PathSolution::path() - intractable (TinyVec + encode + SHA-256)", timeout=3600),
                 # written but NOT registered (did not discharge, see not_decided): c04_sort_cmp_total_preorder,
